@@ -9,25 +9,25 @@ CLAIMED = {
  "C01": dict(
    text="Bounded exhaustive exploration of the real code: every automaton of FA(2,{a,b},<=12) and FA(3,{a,b},<=3) modulo renaming (thorough: + FA(3,2,4), FA(3,1,<=6), FA(4,1,<=4)), "
         "built as epsilon-NFA/NFA/DFA through add_* calls and through constructor arguments, under natural and salted global set orders and naming schemes int/str plus adversarial names "
-        "(mixed types, names equal to the library's merged-state names, TRASH/TrashNode/Empty) on complete small layers; accepts() compared on all words <=4 (+ foreign symbol, + epsilon spelling); "
+        "(mixed types, names equal to the library's merged-state names, TRASH/TrashNode/Empty) on complete small layers, plus a family of 5-state cycle DFAs (Hopcroft worklist) and automata built through the constructor with a ready-made transition function; accepts() compared on all words <=3 (4 thorough) (+ foreign symbol, + epsilon spelling); "
         "to_deterministic/remove_epsilon_transitions/minimize/copy compared by an exact product-BFS language equivalence and shape inspection.",
    note=NOTE, technique="explicit-state enumeration of all small automata x order policies x naming schemes against a reference model (exact language equivalence)",
    design="DESIGN.md §3 C01"),
  "C02": dict(
    text="Every ordered pair from the iso-reduced pools FA(2,{a,b},<=1) (quick) / FA(2,{a,b},<=2) (thorough), second operand also over {b,c}, {a} and mixed-type symbols, plus differential pairs "
         "variant_u(X), variant_v(X) (identity / explicit sink / unreachable state / reachable dead state; equal languages by construction), in every class combination: is_equivalent_to and == "
-        "compared with an exact product-BFS equivalence; minimize() checked for language, reachability, pairwise distinguishability (own Moore refinement) and isomorphism across equivalent operands.",
+        "compared with an exact product-BFS equivalence; minimize() checked for language, reachability, pairwise distinguishability (own Moore refinement) and isomorphism across equivalent operands, also on cycle DFAs with 4-5 states (a = cycle, b = any partial function, any final set).",
    note=NOTE, technique="explicit-state enumeration of all ordered pairs of small automata x order policies against an exact reference equivalence",
    design="DESIGN.md §3 C02"),
  "C03": dict(
    text="Unary operations (complement, reverse, kleene_star and operator forms) on every epsilon-NFA of FA(2,2,<=12) and FA(3,2,<=3) modulo renaming; binary operations (intersection, difference, "
         "union, concatenate and operator forms) on all ordered pairs of small pools with shared state names, overlapping/disjoint alphabets and the same object as both operands; every result "
-        "compared exactly (product BFS over subset automata) with the set-theoretic result, operands snapshotted before/after.",
+        "compared exactly (product BFS over subset automata) with the set-theoretic result, operands snapshotted before/after; NFA- and DFA-typed operands, reserved state names and a & -a included.",
    note=NOTE, technique="explicit-state enumeration of all small operands / operand pairs x order policies against reference set algebra (exact)",
    design="DESIGN.md §3 C03"),
  "C06": dict(
    text="to_regex() on every epsilon-NFA of FA(2,2,<=12) and FA(3,2,<=3) modulo renaming (thorough: up to 4 states), plain-token symbols, under natural and salted set orders (state elimination "
-        "order follows set order): the returned tree (walked through head/sons, own semantics), regex.accepts and regex.to_epsilon_nfa() are each compared exactly with the automaton's language.",
+        "order follows set order), plus reserved state names and trim 4-state automata with 5 transitions (cycles through two eliminated states, parallel edges): the returned tree (walked through head/sons, own semantics), regex.accepts and regex.to_epsilon_nfa() are each compared exactly with the automaton's language.",
    note=NOTE, technique="explicit-state enumeration of all small automata x elimination orders against a reference regex/NFA semantics (exact)",
    design="DESIGN.md §3 C06"),
  "C05": dict(
@@ -45,13 +45,13 @@ CLAIMED = {
    design="DESIGN.md §3 C07"),
  "C08": dict(
    text="Every grammar of CFG(2 variables, {a,b}, bodies <= 2, <= 3 productions) and CFG(2,2,3,<=2) modulo renaming (thorough: 4 productions, 3 variables), plus adversarial names (a#CNF#, C#CNF#k, "
-        "a variable and a terminal with the same spelling): contains / in / generate_epsilon on every word <= 4 over {a,b} + an unknown symbol, on a shared object and on a second grammar built from "
+        "a variable and a terminal with the same spelling) and all grammars of CFG(3,2,1,<=5) (unit/terminal/epsilon productions only): contains / in / generate_epsilon on every word <= 4 over {a,b} + unknown symbols (also spelled like variables), on a shared object and on a second grammar built from "
         "the same Production objects, compared with a least-fixpoint derivability oracle, under natural and salted set orders.",
    note="Trusted: CFG oracle (two formulations cross-checked in selftest); languages decided up to word length 4.",
    technique="exhaustive enumeration of small grammars x words x order policies against a least-fixpoint derivability oracle",
    design="DESIGN.md §3 C08"),
  "C09": dict(
-   text="The same grammar layers plus all pairs of long productions sharing a suffix and grammars that already use C#CNF#1/C#CNF#2: each of remove_useless_symbols, remove_epsilon, "
+   text="The same grammar layers plus all pairs of long productions sharing a suffix (and such pairs with one more short production), all triples of length-3 productions over one variable, and grammars that already use C#CNF#1/C#CNF#2: each of remove_useless_symbols, remove_epsilon, "
         "eliminate_unit_productions, to_normal_form on a fresh object; result language (words <= 4, extracted productions through the oracle and result.contains) and promised shape by own inspection.",
    note="Trusted: CFG oracle; grammar languages compared on words <= 4 (general equality undecidable).",
    technique="exhaustive enumeration of small grammars x order policies against a bounded-language oracle + shape inspection",
@@ -71,13 +71,13 @@ CLAIMED = {
    design="DESIGN.md §3 C11"),
  "C12": dict(
    text="Same grammar layers as C08: is_empty, is_finite (exact growing-cycle oracle), generating / nullable / reachable symbols (textbook worklists), get_words(n) for n=0..4 and unbounded on every "
-        "finite language as a multiset of lists of terminals; each query on a fresh object, under natural and salted set orders.",
+        "finite language as a multiset of lists of terminals; each query on a fresh object and all queries in sequence on one object, under natural and salted set orders.",
    note="Trusted: CFG oracle incl. finiteness (two formulations cross-checked in selftest).",
    technique="exhaustive enumeration of small grammars x bounds x order policies against reference fixpoints",
    design="DESIGN.md §3 C12"),
  "C13": dict(
    text="Every PDA of PDA(2 states, stack {Z,X}, pushes <= 2, <= 2 transitions, any finals) modulo letter swap (thorough: 3 transitions, pushes 3, 3 states) with plain and reserved names, and every "
-        "grammar of CFG(2,2,2,<=3) incl. a variable named #TERM#a: to_pda, to_cfg, to_final_state, to_empty_stack compared on all words <= 3 with an exact summary-fixpoint PDA oracle applied to the extracted results.",
+        "grammar of CFG(2,2,2,<=3) incl. a variable named #TERM#a under 4 orders, every one-state PDA with 3 transitions, PDAs assembled call by call and conversions of conversions: to_pda, to_cfg, to_final_state, to_empty_stack compared on all words <= 3 with an exact summary-fixpoint PDA oracle applied to the extracted results.",
    note="Trusted: PDA summary oracle (cross-checked against configuration BFS in selftest), CFG oracle.",
    technique="exhaustive enumeration of small PDAs / grammars x order policies against an exact PDA acceptance oracle",
    design="DESIGN.md §3 C13"),
@@ -95,26 +95,26 @@ CLAIMED = {
    design="DESIGN.md §3 C15"),
  "C16": dict(
    text="Every transducer of FST(2 states, input {a,b,eps}, outputs {-,x,y,xy}, <= 2 transitions (3 thorough), any start/final sets) whose epsilon cycles write nothing: translate on all inputs <= 3; "
-        "kleene_star; union / concatenate on all ordered pairs of the <= 1 transition pool with shared str and int state names; to_fst on FA(2,{a,b},<=3); relations of extracted results compared exactly per input.",
+        "kleene_star; union / concatenate on all ordered pairs of the <= 1 transition pool with shared str, int and prefix-digit state names, a state named like the star hub, output symbols whose concatenations coincide; to_fst on FA(2,{a,b},<=3); relations of extracted results compared exactly per input.",
    note="Trusted: FST relation reference (BFS; path enumeration cross-check in selftest).",
    technique="exhaustive enumeration of small transducers / pairs x inputs against a reference transduction relation",
    design="DESIGN.md §3 C16"),
  "C17": dict(
    text="Every reduced-form indexed grammar over S,A,B / f,g with <= 3 rules (4 thorough) modulo renaming x every permutation of the rule list x optim 0..8 (random.shuffle owned), queried twice and after "
-        "remove_useless_rules(), against an exact stack-profile fixpoint; intersection with 12 regular languages (Regex/DFA/eps-NFA) against an own triple construction. Slow (exponential) intersections are counted as inconclusive.",
+        "remove_useless_rules(), plus duplication chains over 4 non-terminals and push/pop chains of <= 5 steps with an extra consumption rule, against an exact stack-profile fixpoint; intersection with 12 regular languages (Regex/DFA/eps-NFA) against an own triple construction. Slow (exponential) intersections are counted as inconclusive.",
    note="Trusted: stack-profile fixpoint (cross-checked by bounded derivations in selftest).",
    technique="exhaustive enumeration of small indexed grammars x rule orders x heuristics against an exact emptiness fixpoint",
    design="DESIGN.md §3 C17"),
  "C18": dict(
    text="All 317k ordered pairs of consistently typed feature structures of depth <= 2 with <= 1 shared node: unify raises iff the reference MGU clashes, the receiver's observable (paths, atoms, sharing) equals "
-        "the reference MGU, both argument orders agree; every FCFG from a useful skeleton of CFG(2,2,2,<=3) with <= 2 annotated occurrences (F=p/q/?x) x words <= 3 against the instantiate-to-CFG oracle; feature-free FCFG vs CFG.contains.",
+        "the reference MGU, both argument orders agree; every FCFG from a useful skeleton of CFG(2,2,2,<=3) with <= 2 annotated occurrences (F=p/q/?x) and from two 3-variable agreement skeletons with <= 4 annotated occurrences x words <= 3 against the instantiate-to-CFG oracle; feature-free FCFG vs CFG.contains.",
    note="Trusted: union-find MGU reference, CFG oracle.",
    technique="exhaustive enumeration of feature-structure pairs and annotated grammars against reference unification / instantiation",
    design="DESIGN.md §3 C18"),
  "C19": dict(
-   text="Explicit-state BFS over call histories on real objects: 19 seed objects (automata, regexes, grammars, PDAs, transducers, indexed grammars), alphabets of 6-27 operations (queries, conversions, conversions of "
+   text="Explicit-state BFS over call histories on real objects: 20 seed objects (automata, regexes, grammars, PDAs, transducers, indexed grammars), alphabets of 6-27 operations (queries, conversions, conversions of "
         "conversions, the same object as both operands, mutations of returned objects), depth <= 3 (4 thorough); states deduplicated by a deep structural fingerprint (private caches, aliasing); in every state the "
-        "observation battery on the seed equals the battery on a fresh twin and the seed's public structure is unchanged.",
+        "observation battery on the seed equals the battery on a fresh twin, the seed's public structure is unchanged, and every derived (possibly mutated) automaton / grammar answers according to its own current structure.",
    note="Trusted: fingerprint soundness (equal fingerprints => equal futures under a fixed order policy); semantic comparison of returned objects.",
    technique="explicit-state breadth-first search over operation sequences on the real objects with state hashing and a fresh-twin differential oracle",
    design="DESIGN.md §3 C19"),
